@@ -280,6 +280,8 @@ type Call struct {
 	Expect *Tree `json:"expect,omitempty"`
 	// implementation side
 	Wait bool `json:"wait,omitempty"` // sendx: the call waits for a response
+	// forced schedules: this call pauses in the middle of its element (MidPoint)
+	Mid bool `json:"-"`
 	// observations
 	Second  string `json:"second,omitempty"`  // token writer: results of EncodeToken and Close after Close
 	Mutated string `json:"mutated,omitempty"` // the call changed a token of its argument
@@ -357,4 +359,29 @@ func SCase(ns, from string, ids []string, calls []*Call, log []Event, res [][]st
 		idt = append(idt, coqStr(i))
 	}
 	return fmt.Sprintf("mksc %s %s %s %s %s %s", coqStr(ns), coqStr(from), CoqList(idt), CoqCalls(calls), CoqEvents(log), CoqResults(res))
+}
+
+// CanMid reports whether the call can pause in the middle of its element (see
+// MidPoint): its argument is read, or its tokens are written, one at a time
+// while the call is inside its lock region.
+func (c *Call) CanMid() bool {
+	n := len(c.Src)
+	switch c.Kind {
+	case "send", "tokenwriter", "reply":
+		return n >= 2
+	case "sendelement":
+		return n >= 1
+	case "encode", "encodeelement":
+		return c.Form != "struct" && n >= 2
+	case "sendx":
+		switch {
+		case strings.HasSuffix(c.API, "Element") && strings.HasPrefix(c.API, "Send"):
+			return n >= 1
+		case strings.HasPrefix(c.API, "Send"):
+			return n >= 2
+		default:
+			return c.Form != "struct" && n >= 2
+		}
+	}
+	return false
 }
